@@ -130,12 +130,16 @@ func Note(s string) { Notes = append(Notes, s) }
 // path (or counterexample), the native build renders it directly.
 func Notef(format string, args ...any) { Notes = append(Notes, fmt.Sprintf(format, args...)) }
 
+// Or / And: boolean connectives that do not fork the symbolic execution.
+func Or(a, b bool) bool                    { return a || b }
+func And(a, b bool) bool                   { return a && b }
 func PickStr(sel int, tab []string) string { return tab[sel] }
 func PickInt(sel int, tab []int) int       { return tab[sel] }
 func Conc(s string) string                 { return s }
 func ConcInt(n int) int                    { return n }
 func PoolGC()                              {}
 func MapOrderReverse(bool)                 {}
+
 type frozenRec struct {
 	v    any
 	what string
@@ -160,9 +164,9 @@ func Unfreeze() {
 	}
 	frozen = nil
 }
-func Engine() bool                         { return false }
-func WatchReentry(fn, field, id string)    {}
-func Steps() int                           { return 0 }
+func Engine() bool                      { return false }
+func WatchReentry(fn, field, id string) {}
+func Steps() int                        { return 0 }
 
 // DeepEqual is structural equality following pointers; nil and empty slices / maps are
 // equal and capacity is ignored (same relation as the engine's).
